@@ -4,6 +4,7 @@ import (
 	"bytes"
 	"encoding/json"
 	"fmt"
+	"math/big"
 	"math/rand"
 	"reflect"
 	"strings"
@@ -299,6 +300,29 @@ func runC16(c *Ctx) {
 		for i := 0; i < 200; i++ {
 			ws = append(ws, wrapInt{V: i, A: []ion.SymbolToken{tok(fmt.Sprintf("sensor_%03d", i))}})
 		}
+		// small lobs and big ints early in an output of several buffers' length: what Unmarshal stores
+		// for them must not be a view of something it goes on using
+		type rec struct {
+			ID   int      `ion:"id"`
+			Hash []byte   `ion:"hash"`
+			Big  *big.Int `ion:"big"`
+			Note string   `ion:"note"`
+		}
+		var recs []rec
+		for i := 0; i < 220; i++ {
+			recs = append(recs, rec{ID: i, Hash: []byte(fmt.Sprintf("hash-%04d-%04d", i, i*7)), Big: new(big.Int).Lsh(big.NewInt(int64(i+3)), 70), Note: strings.Repeat("n", 20+i%30)})
+		}
+		shared = append(shared,
+			struct {
+				Key   []byte   `ion:"key"`
+				Clob  []byte   `ion:"clob,clob"`
+				Body  string   `ion:"body"`
+				Names []string `ion:"names"`
+				Tail  []byte   `ion:"tail"`
+			}{[]byte("Torrance-key-001"), []byte("a clob of some bytes"), strings.Repeat("body text ", 900), []string{"a", "b", "c", "d", "e", "f", "g"}, []byte("tail")},
+			recs,
+			map[string]*rec{"first": &recs[0], "second": &recs[1], "last": &recs[219]},
+		)
 		shared = append(shared,
 			struct {
 				M map[string]int `ion:"m"`
